@@ -119,7 +119,14 @@ def handle (line : String) : String :=
   | "sbom" :: _stream :: ftok :: n :: rest =>
     -- `<format>~<earlier exports of the same scan result>`: the model's exports are pure functions of the inventory, so what was
     -- exported before cannot matter; the specification is the same for every position in the sequence
-    let fmt := (((ftok.splitOn "~").headD ftok).splitOn "@").headD ftok   -- `@<state of the output path>[,cli]` is about the writer, not the document
+    let head := (ftok.splitOn "~").headD ftok
+    let fmt := (head.splitOn "@").headD ftok   -- `@<state of the output path>[,cli,…]` is about the writer, not the document
+    let opts := ((head.splitOn "@").getD 1 "").splitOn ","
+    -- nothing can come back when nothing readable was written: the output path cannot be written (isdir / nodir), the written JSON / XML file
+    -- was cut in half (trunc; `C15_codec_failure`: a reader that rejects the bytes yields an error, no packages), or the flags are invalid (cfg4)
+    if opts.contains "isdir" || opts.contains "nodir" || opts.contains "trunc" || opts.contains "cfg4" then
+      "purls=- extra=0 st=no-document spec=- wf=1 lost=0 laws=1 specall=-"
+    else
     match n.toNat? with
     | none => "bad-op"
     | some n =>
@@ -132,7 +139,9 @@ def handle (line : String) : String :=
           render (roundTripSpdx ops env {} (fun _ => idc SpdxDoc) f inv) (specSpdx ops inv) (lostOf ops (exportedSpdx ops) inv) (lawsOk ops ps) (specPurls ops hasPurl inv)
         | none, some f =>
           render (roundTripCdx ops env {} (fun _ => idc Bom) f inv) (specCdx ops inv) (lostOf ops exportedCdx inv) (lawsOk ops ps) (specCdx ops inv)
-        | none, none => "bad-op"
+        | none, none =>
+          -- not one of the five formats (stream cliflags: names the command line must refuse): nothing is written, nothing comes back
+          "purls=- extra=0 st=unsupported spec=- wf=1 lost=0 laws=1 specall=-"
       | _ => "bad-op"
   | _ => "bad-op"
 
